@@ -12,7 +12,7 @@ pub fn meta(tier: Tier) -> Meta {
             "Cases = (planner in Auto/Scalar/Sse/Avx, f32|f64, direction, n, entry point in process/in-place/out-of-place/immutable, chunk count, input). \
              (a) complete unit-impulse basis for every n in 1..={nb} (one case = all n columns of the matrix through one entry point, single-chunk calls, analytic reference column exp(-+2*pi*i*j*k/n) in double-double); \
              (b) every n in 0..={dense} with impulses at 0,1,n/2,n-1, a dense uniform vector and one rotating structured family, all 4 planners x 4 entry points; \
-             (b2) every n up to 8192 (quick) / 65536 (thorough) in f32 on the three concrete planners with rotating entry point and direction, every 8th length also in f64; (b3) every prime up to 2^15 / 2^18 on the scalar and AVX planners; (b4) n <= 64 with 2, 3 and 4 chunks incl. silent (all-zero) chunks on every entry point; (b5) every prime with 23-smooth p-1 (Rader on every planner) up to 2^17 / 2^20; \
+             (b2) every n up to 8192 (quick) / 65536 (thorough) in f32 on the three concrete planners with rotating entry point and direction, every 8th length also in f64; (b3) every prime up to 2^15 / 2^18 on the scalar and AVX planners; (b4) n <= 64 with 2, 3 and 4 chunks incl. silent (all-zero) chunks on every entry point; (b5) every prime with 23-smooth p-1 (Rader on every planner) up to 2^17 / 2^20; (b6) ~50 landmark lengths up to 2^17 / 2^20 (2^k, 3*2^k, 5*2^k, primes just above 2^16, large prime powers, 8*3^9) on the three concrete planners; (b7) every n of range (b) on planners with a minimal history (opposite direction of the same length, and a multiple/divisor, planned first); \
              (c) {cases} proptest-drawn cases over constructed length families up to {nmax} (Rader/Bluestein primes, Cunningham primes, prime powers, semiprimes, smooth numbers, butterfly products and planner thresholds, AVX row residues, smooth*bigprime), 16 input families, 1-3 chunks; \
              (d) exact finite-field instantiation of the portable code for every n up to 768 / 4096: output must equal sum_j x_j*omega^(-+jk) in GF(p^2) with zero tolerance (see C14 for the full version). \
              Oracle: relative L2 distance to an independent reference DFT (own radix-2+Bluestein FFT in f64 for f32 results, in double-double for f64 results, validated against a naive double-double DFT at start-up) <= 4*B, B = 16*eps*log2(2n). \
@@ -80,6 +80,38 @@ pub fn worker(ctx: &mut Ctx) {
                             ctx.exec(&Case::new("C01", "numeric", planner, ty, dir, n).with_entry(entry).with_input(input.clone()));
                         }
                     }
+                }
+            }
+        }
+        if ctx.done() {
+            return;
+        }
+    }
+    // (b7) the same dense range on planners WITH a minimal history: the opposite direction of the same length (and for every
+    //      third n a multiple or a divisor) planned first on the same planner; the transform must still be the DFT (C10 has the
+    //      long histories; this pass makes the commonest real-world sequence -- forward then inverse of one length -- dense)
+    for n in 2..=dense {
+        for ty in TYS {
+            for dir in DIRS {
+                if !ctx.mine() {
+                    continue;
+                }
+                let mut reqs = vec![Req { n, dir: dir.other() }];
+                if n % 3 == 0 {
+                    reqs.push(Req { n: 2 * n, dir });
+                } else if n % 3 == 1 && n % 2 == 0 {
+                    reqs.push(Req { n: n / 2, dir: dir.other() });
+                }
+                reqs.push(Req { n, dir });
+                let pick = reqs.len() - 1;
+                let input = InputSpec::fam(if n % 2 == 0 { "uniform" } else { "gaussish" }, n as u64 + 91);
+                for (pi, planner) in PLANNERS.iter().enumerate() {
+                    ctx.exec(
+                        &Case::new("C01", "numeric", *planner, ty, dir, n)
+                            .with_entry(ENTRIES[(n + pi) % 4])
+                            .with_source(Source::History { reqs: reqs.clone(), pick })
+                            .with_input(input.clone()),
+                    );
                 }
             }
         }
